@@ -85,3 +85,10 @@ CHECKS["C13"] = dict(
     design_ref="DESIGN.md 3 C13",
     note="Whole-page 'text comes back unchanged' and the hooks' argument map are outside (C14 covers the map); path conditions are uninterpreted, violating paths are replayed with recording hooks.",
 )
+CHECKS["C12"] = dict(
+    engine="E1 CrossHair on AST slices",
+    technique="CrossHair symbolic execution of the AST-sliced parse_dump_xml loop body (lxml element stubbed), of add_page with a recording connection and of add_default_templates",
+    text="For every title of the skeleton family, namespace, selection, content model, text and redirect within the bounds, exactly the pages the statement selects are handed to the store with title, text, model and redirect target unchanged; add_page writes a canonical title unchanged and passes the fields through (template bodies reduced to their includable part); the four helper templates are added exactly when absent. Confirmed over all paths.",
+    design_ref="DESIGN.md 3 C12",
+    note="lxml/bz2 extraction is stubbed in the solver runs and exercised only by replays on generated dumps; duplicate page elements and the overwrite flow are outside; one recorded finding ('Main:' prefix in namespace 0).",
+)
